@@ -133,7 +133,7 @@ def run(ctx):
             exact_case = exact_case and cfg['n_glass'] == cfg['n_environment']
         else:
             rows = gcommon.gen_matrix(rng, exact, closed=rng.random() < 0.8, max_pts=40 if ctx.tier == 'quick' else 200,
-                                      digits=cfg['output_digits'])
+                                      digits=cfg['output_digits'], near_zero=tuple(cfg['shift_origin']) == (0.0, 0.0))
             src = 'generated'
             exact_case = exact
         pre_on = rng.random() < 0.1
